@@ -5,6 +5,7 @@
    validates on adversarial keyword sets on every run (one document per keyword). *)
 From Coq Require Import List NArith ZArith Bool.
 From BE Require Import Model.GoTypes Model.GoVal Model.Parsers Model.Index Proofs.AcProof.
+From BE Require Gen.IdsGen Proofs.IndexCorrect Proofs.HoldersBuildInv Proofs.IndexCorrectHolders Proofs.NonVacuous.
 Import ListNotations.
 
 Theorem C05_substring_means_contiguous_occurrence : forall k t,
@@ -23,6 +24,51 @@ Theorem C05_texts_joined_by_one_space : forall a b rest,
   join_sep [32%N] (a :: b :: rest) = a ++ [32%N] ++ join_sep [32%N] (b :: rest).
 Proof. intros. apply join_sep_cons. Qed.
 
+(* END TO END over the executable model (Model/Index.v), fields configured with ANY of the three containers
+   (default, pattern, range) mixed in one conjunction, both posting-list indexes: for any builder obtained
+   by successful ConfigField calls, any accepted document set with distinct ids and any assignment whose
+   values their containers accept, the concrete retrieval succeeds and reports, once each, exactly the
+   conjunctions satisfied under the per-container hit rule `ehit`:  conj_sat' = on every field of the
+   conjunction no exclude expression is hit and, if there are include expressions, one of them is.
+   For a pattern field the hit rule is C05_pattern_hit_rule below.
+   (conj_rwf: kept intervals lie inside the int64 range -- always true of Go values, the model's Z is
+   unbounded; nil_slice_wf: a nil slice has no elements -- always true of Go values.)
+   Domain note: the property speaks of NON-EMPTY keywords.  The model stores an empty keyword like any
+   other (so it is hit by every non-empty text: IndexCorrectHolders.WitnessH.empty_keyword_counterexample);
+   the real BuildIndex panics inside the third-party automaton builder on an empty keyword (DESIGN §7,
+   observations) -- the correspondence runs use non-empty keywords only. *)
+Theorem C05_any_container_index_exact : forall kind pol thr parsers cfgl st0 ds st os q,
+  HoldersBuildInv.config_fields (new_builder kind pol thr parsers) cfgl = Some st0 ->
+  add_documents false st0 ds = (st, os) -> Forall (eq AddOk) os -> NoDup (map d_id ds) ->
+  (forall d cj, In d ds -> In cj (d_conjs d) -> NoDup (map fst cj)) ->
+  (pol <> PolSkip \/ forall d cj, In d ds -> In cj (d_conjs d) ->
+       HoldersBuildInv.conj_ok' parsers (HoldersBuildInv.cfg_of cfgl) cj = true) ->
+  (forall d cj, In d ds -> In cj (d_conjs d) -> HoldersBuildInv.conj_rwf thr (HoldersBuildInv.cfg_of cfgl) cj) ->
+  NoDup (map fst q) ->
+  (forall f v, In (f, v) q -> IndexCorrectHolders.qv_ok (HoldersBuildInv.cfg_of cfgl f) (parsers f) v = true) ->
+  (kind = IKGroups -> forall f v, In (f, v) q -> HoldersBuildInv.cfg_of cfgl f = CAc -> IndexCorrectHolders.nil_slice_wf v) ->
+  exists hits, retrieve_hits (build_index st) q = ROk hits /\ NoDup (map snd hits) /\
+    (forall d k cj cid, IndexCorrect.has_conj ds d k cj cid ->
+       (In cid (map snd hits) <-> IndexCorrectHolders.conj_sat' parsers (HoldersBuildInv.cfg_of cfgl) q cj = true)) /\
+    (forall h, In h hits -> fst h = Gen.IdsGen.ConjID_DocID (snd h) /\ exists d k cj, IndexCorrect.has_conj ds d k cj (snd h)).
+Proof. exact IndexCorrectHolders.index_correct_holders. Qed.
+
+(* the hit rule of a pattern field: the expression lists keywords ks, the assigned value gives the text t
+   (one string, or the strings joined by one space), t is non-empty and some keyword occurs in it *)
+Theorem C05_pattern_hit_rule : forall p v e,
+  IndexCorrectHolders.ehit CAc p v e = true <->
+  exists ks t, ac_parse_dict (e_val e) = POk ks /\ ac_query_text [32%N] v = POk t /\ t <> [] /\
+               exists w, In w ks /\ substring w t = true.
+Proof. exact IndexCorrectHolders.ehit_ac_iff. Qed.
+
+(* the hypotheses of the end-to-end theorem are met by a concrete builder with a pattern and a range field,
+   three documents (kept interval, expanded between, `in`, include and exclude keywords) and two assignments,
+   for which the concrete retrievals return [12] and [10] *)
+Example C05_end_to_end_nonvacuous :
+  NonVacuous.ex2_ok IKGroups = true /\ NonVacuous.ex2_ok ICompact = true /\
+  (forall d cj, In d NonVacuous.ex2_docs -> In cj (d_conjs d) -> HoldersBuildInv.conj_rwf 256 (HoldersBuildInv.cfg_of NonVacuous.ex2_cfg) cj).
+Proof. split; [exact NonVacuous.holders_hypotheses_met_kgroups | split; [exact NonVacuous.holders_hypotheses_met_compact | exact NonVacuous.ex2_ranges_inside_int64]]. Qed.
+
 Example C05_nonvacuous :
   substring [98; 99]%N [97; 98; 99; 100]%N = true /\ substring [98; 100]%N [97; 98; 99; 100]%N = false /\
   ac_query_text [32%N] (VSlice TSstring false [VStr [97]%N; VStr [98]%N]) = POk [97; 32; 98]%N.
@@ -31,3 +77,5 @@ Proof. vm_compute. repeat split. Qed.
 Print Assumptions C05_substring_means_contiguous_occurrence.
 Print Assumptions C05_holder_selects_by_substring.
 Print Assumptions C05_texts_joined_by_one_space.
+Print Assumptions C05_any_container_index_exact.
+Print Assumptions C05_pattern_hit_rule.
